@@ -146,6 +146,8 @@ PROPS = {
                 ("closebl", C(InitMax=1, Budget=4, AllowClose=True, ResizeTargets=[2], AllowDropPool=True, AllowSuspend=False, GetModes=["bl"]), True),
                 ("close2", C(InitMax=2, Budget=3, AllowClose=True, AllowTake=True, AllowRetain=True, AllowCancel=False), True),
                 ("close", C(InitMax=1, Budget=4, AllowClose=True, ResizeTargets=[2], AllowDropPool=True, AllowSuspend=False), False),
+                # close() while another task's recycle is in flight, which then runs into the recycle timeout (seed C06f)
+                ("closerto", C(InitMax=1, Budget=4, AllowClose=True, RecycleTO=["finite"], GetModes=["nb"], AllowFail=False, AllowCancel=False), True),
             ],
             "thorough": [
                 ("closeq", C(InitMax=1, Budget=4, AllowClose=True, ResizeTargets=[2], AllowDropPool=True, AllowSuspend=False), True),
@@ -205,6 +207,8 @@ PROPS = {
                 ("pgreg", C(MaxSize=3, NConns=3, Budget=5, Method="fast", Keys=["a"]), True,
                  {"kind": "pgmgr", "invariants": ["Inv_C16_registry", "Inv_Capacity"], "actprops": [], "preds": ["P16c", "P16d", "P16f"],
                   "hcfg": {"stress": 24, "stress_rounds": 6}}),
+                # close() while another task's recycle / post_create is in flight, which then fails: still exactly one detach (seed C09f)
+                ("clfail", C(InitMax=1, Budget=4, AllowClose=True, AllowSuspend=False, AllowCancel=False, GetModes=["nb"]), True),
                 ("tkrsz", C(Tasks=["t1"], InitMax=2, Budget=6, AllowTake=True, ResizeTargets=[0, 1], AllowClose=True, AllowSuspend=False, AllowCancel=False, AllowFail=False, GetModes=["nb"], ThreadLevel=False), True),
             ],
             "thorough": [
